@@ -43,12 +43,16 @@ LetTemplates == { T("let", "    let k = ", " + 1\n"), T("let", "    let k = A1["
                   T("let", "    let k = 10 / ", "\n"), T("let", "    let k = -", "\n"), T("let", "    let k = not ", "\n"), T("let", "    let k = ", " * 9223372036854775807\n") }
 DeclTemplates == { T("decl", "\n    w as IntegerRange(", ", 3)"), T("decl", "\n    w as Real(0, ", ")"), T("decl", "\n    w as NonNegativeReal(", ", 9)"),
                    T("decl", "\n    w_i as Boolean for i in ", ""), T("decl", "\n    w_i as Boolean for i in 0..", ""), T("decl", "\n    x as ", "") }
-Templates == RowTemplatesOk \cup LetTemplates \cup DeclTemplates \cup OpTemplates
+\* the objective: what is optimized is a number
+ObjTemplates == { T("obj", "", ""), T("obj", "2 * ", ""), T("obj", "x + ", ""), T("obj", "sum(i in 0..2) { ", " }") }
+Templates == RowTemplatesOk \cup LetTemplates \cup DeclTemplates \cup OpTemplates \cup ObjTemplates
 
 GlobalFillers == {"2", "-1", "1.5", "0", "7", "true", "\"s\"", "S1", "B1", "A1", "[1, 2]", "E0", "M2", "M2[0]", "G", "x", "p", "zz", "len(A1)", "A1[0]", "nodes(G)", "edges(G)",
                   \* block functions and aggregations over constants, mixed (Any) arrays and their elements, set functions
                   "max { 1, 2 }", "abs { 3 }", "avg { 1, 2 }", "sum(j in 0..2) { j }", "H1", "H1[0]", "H1[1]", "union(E0, [\"a\"])", "union(A1, [4])", "zip(A1, A1)", "enumerate(A1)",
-                  "union(A1, [\"a\"])", "intersection(A1, [\"a\"])", "difference([\"a\"], A1)", "union([true], A1)", "difference(A1, 1)"}
+                  "union(A1, [\"a\"])", "intersection(A1, [\"a\"])", "difference([\"a\"], A1)", "union([true], A1)", "difference(A1, 1)",
+                  \* set functions over two equal arguments that are no collections
+                  "difference(3, 3)", "union(\"a\", \"a\")", "intersection(G, G)", "union(B1, B1)"}
 RowFillers == GlobalFillers \cup {"u", "e", "t", "i"}
 FillersFor(t) == IF t.where = "row" THEN RowFillers ELSE GlobalFillers
 
@@ -63,6 +67,7 @@ Filled == IF tpl.op = "" THEN fill ELSE fill \o tpl.op \o fill2
 Spec == Init /\ [][Next]_vars
 
 Text == CASE tpl.where = "row" -> Header \o "    " \o tpl.pre \o Filled \o tpl.post \o RowCtx \o "\n" \o Data \o Decl
+          [] tpl.where = "obj" -> "min " \o tpl.pre \o Filled \o tpl.post \o "\ns.t.\n    x <= 9\n" \o Data \o Decl
           [] tpl.where = "let" -> Header \o "    k * x <= 9\n" \o Data \o tpl.pre \o Filled \o tpl.post \o Decl
           [] tpl.where = "decl" -> Header \o "    x <= 9\n" \o Data \o Decl \o tpl.pre \o Filled \o tpl.post
 \* what the skeleton declares: decision variables and indexed families (the trace specification
